@@ -149,9 +149,10 @@ def deprecatedToUsefulText(ctx:model.Documentable, name:str, deprecated:ast.Call
         # By adding extras backtics, we make the replacement a literal text.
         # Nothing in it may end that literal or the directive: collapse every kind of
         # whitespace and line break (str.split() knows them all) and NUL, drop backticks
-        # and a trailing backslash.
+        # and trailing backslashes (together with the blanks between and before them:
+        # the literal must not end in a blank either).
         replacement = ' '.join(replacement.replace('\0', ' ').split())
-        replacement = replacement.replace('`', "'").rstrip('\\') or "''"
+        replacement = replacement.replace('`', "'").rstrip('\\ ') or "''"
         replacement = f"`{replacement}`"
     
     if replacement is not None:
